@@ -7,3 +7,5 @@ import AL.Props.C13Doc
 #print axioms AL.C13D.parseJobs_ext
 #print axioms AL.C13D.parse_jobs_ext
 #print axioms AL.C13D.step_unknown_in_document
+#print axioms AL.C13D.job_unknown_in_document
+#print axioms AL.C13D.step_duplicate_in_document
